@@ -15,7 +15,9 @@
 (* two states that are explored here).                                                           *)
 EXTENDS DD, ParBnB
 CONSTANTS W, NoW, Kind,
-          Variant     \* "none" = the code; other values = seeded variants the invariants must reject (tools/selftest.py)
+          Variant,    \* "none" = the code; other values = seeded variants the invariants must reject (tools/selftest.py)
+          PartialPublish   \* TRUE: a finished diagram may first publish the thresholds of its deepest layers only (the code publishes
+                           \* bottom-up, entry by entry): the other workers also read such intermediate tables
 VARIABLES P, wk, act, width
 pvars == <<P, wk, act, width>>
 allvars == <<vars, pvars>>
@@ -33,7 +35,7 @@ PCInit == /\ ii \in 1..Len(Insts) /\ cut \in Cuts /\ width \in Widths
           /\ inp = <<>> /\ nodes = <<>> /\ edges = {} /\ layers = <<>> /\ nextL = {} /\ lel = 0 /\ pc = "idle" /\ res = <<>> /\ maxExpanded = <<>>
           /\ cacheT = CEmpty
           /\ P = PInit(Kind, [st |-> StOf(0, RootQ(Insts[ii])), depth |-> 0, value |-> Insts[ii].v0, ub |-> PosInf, path |-> <<>>], Insts[ii].n, W)
-          /\ wk = [w \in W |-> [phase |-> "get", cur |-> NoCur, dd |-> NullDD, out |-> NoOut]]
+          /\ wk = [w \in W |-> [phase |-> "get", cur |-> NoCur, dd |-> NullDD, out |-> NoOut, part |-> FALSE]]
           /\ act = NoW
 SP(x) == [st |-> x.st, depth |-> x.depth, value |-> x.value, ub |-> x.ub, path |-> CHOOSE p \in x.paths : TRUE]
 QOf(sp) == Q(I, sp.st)
@@ -91,8 +93,16 @@ ApplyUpdates(t, us) == IF us = {} THEN t ELSE LET u == CHOOSE x \in us : TRUE IN
 \* _compute_thresholds publishes the thresholds of the finished diagram (outside any critical section)
 Publish(w) == /\ wk[w].phase = "dd" /\ act = w /\ pc = "done"
               /\ P' = [P EXCEPT !.table = ApplyUpdates(P.table, res.cu)] /\ cacheT' = P'.table
-              /\ wk' = [wk EXCEPT ![w].phase = "upd", ![w].out = [type |-> inp.type, exact |-> res.exact, bev |-> res.bev, cs |-> res.cs]]
+              /\ wk' = [wk EXCEPT ![w].phase = "upd", ![w].part = FALSE, ![w].out = [type |-> inp.type, exact |-> res.exact, bev |-> res.bev, cs |-> res.cs]]
               /\ Release /\ Fixed
+\* publication in progress: the thresholds of the layers at depth >= L are visible, the others not yet (at most once per diagram)
+PublishPart(w) == /\ PartialPublish /\ wk[w].phase = "dd" /\ act = w /\ pc = "done" /\ ~wk[w].part
+                  /\ \E L \in {u.d : u \in res.cu} :
+                       /\ \E u \in res.cu : u.d < L
+                       /\ P' = [P EXCEPT !.table = ApplyUpdates(P.table, {u \in res.cu : u.d >= L})]
+                  /\ cacheT' = P'.table
+                  /\ wk' = [wk EXCEPT ![w].part = TRUE]
+                  /\ DDUnchanged /\ UNCHANGED act /\ Fixed
 \* maybe_update_best
 Upd(w) == /\ wk[w].phase = "upd"
           /\ P' = PUpdate(P, wk[w].out.bev)
@@ -118,7 +128,7 @@ Finish(w) == /\ wk[w].phase = "finish"
                                    ELSE IF wk[v].phase = "parked" THEN [wk[v] EXCEPT !.phase = "get"] ELSE wk[v]]
              /\ UNCHANGED <<cacheT, act>> /\ DDUnchanged /\ Fixed
 AllExit == \A w \in W : wk[w].phase = "exit"
-PCNext == \/ \E w \in W : Get(w) \/ Switch(w) \/ Lb1Skip(w) \/ Lb1(w) \/ Lb2(w) \/ DDStep(w) \/ Publish(w) \/ Upd(w) \/ Enq(w) \/ Finish(w)
+PCNext == \/ \E w \in W : Get(w) \/ Switch(w) \/ Lb1Skip(w) \/ Lb1(w) \/ Lb2(w) \/ DDStep(w) \/ PublishPart(w) \/ Publish(w) \/ Upd(w) \/ Enq(w) \/ Finish(w)
           \/ (AllExit /\ UNCHANGED allvars)
 PCSpec == PCInit /\ [][PCNext]_allvars
 
